@@ -6,6 +6,13 @@ GLOBALS = {"T", "tau", "eta", "kappa", "delta", "phi"}
 
 
 NEIGHBOUR_ROLES = {"SELF", "SELF.vsl", "UIN", "UIN*", "UOUT*", "DOUT", "DOUT*", "ORG", "DST"}
+# which parameters of a model neighbour the equations use: the lanes of an entering link (its
+# flow), the turn rates of the links leaving the upstream node (the split), the lanes of the
+# single following link (lane drop), the capacity of the origin
+NEIGHBOUR_PARAMS = {
+    "SELF": PARAMS, "SELF.vsl": PARAMS, "UIN": {"lam"}, "UIN*": {"lam"}, "UOUT*": {"turnrate"},
+    "DOUT": {"lam"}, "DOUT*": set(), "ORG": {"C"}, "DST": set(),
+}
 
 
 def is_param(key) -> bool:
@@ -15,7 +22,7 @@ def is_param(key) -> bool:
         role, _, n = key[1].rpartition(".")
         if not role:
             return n in GLOBALS
-        return n in PARAMS and role in NEIGHBOUR_ROLES
+        return role in NEIGHBOUR_ROLES and n in NEIGHBOUR_PARAMS[role]
     return False
 
 
@@ -52,6 +59,9 @@ def allowed_set(cfg, role, var, pos):
     elif cfg.u_origin == "Origin":
         org_vars = {("sa", "rho", "SELF", p_first), ("sa", "v", "SELF", p_first)}
     in_role = "UIN" if cfg.u_in == 1 else ("UIN*" if cfg.u_in == "many" else None)
+    loop = getattr(cfg, "selfloop", False)  # a one-link ring: the link is its own neighbour
+    if loop:
+        in_role = "SELF"
     if role == "ORG":
         return org_vars
     if var == "rho":
@@ -61,7 +71,8 @@ def allowed_set(cfg, role, var, pos):
         else:
             A |= org_vars
             if in_role:
-                A |= {("sa", "rho", in_role, ("last", 0)), ("sa", "v", in_role, ("last", 0))}
+                A |= {("sa", "rho", in_role, p_last if loop else ("last", 0)),
+                      ("sa", "v", in_role, p_last if loop else ("last", 0))}
         return A
     if var == "v":
         A |= {("sa", "rho", "SELF", p_own), ("sa", "v", "SELF", p_own)}
@@ -72,7 +83,9 @@ def allowed_set(cfg, role, var, pos):
         if not first:
             A.add(("sa", "v", "SELF", shift(pos, -1)))
         else:
-            if in_role == "UIN":
+            if loop:
+                A.add(("sa", "v", "SELF", p_last))
+            elif in_role == "UIN":
                 A.add(("sa", "v", "UIN", ("last", 0)))
             elif in_role == "UIN*":
                 A |= {("sa", "v", "UIN*", ("last", 0)), ("sa", "rho", "UIN*", ("last", 0))}
@@ -87,6 +100,8 @@ def allowed_set(cfg, role, var, pos):
                 A.add(("sa", "rho", "SELF", p_last))
             elif cfg.d_dest == "CongestedDestination":
                 A |= {("sa", "rho", "SELF", p_last), ("s", "DST.d")}
+            elif cfg.d_out == 1 and loop:
+                A.add(("sa", "rho", "SELF", p_first))
             elif cfg.d_out == 1:
                 A.add(("sa", "rho", "DOUT", ("first", 0)))
             else:
